@@ -29,6 +29,29 @@ def select(prop, tier, seed=0):
     return [h for h in hs if h["tier"] in ("quick", "thorough")]
 
 
+# compiler unit harnesses: Compiler::new() builds a default program (16-slot tables are zero-filled)
+_CX_LIM = {
+    r"SpecFill<cao_lang::prelude::Handle>>::spec_fill$#0": 18,
+    # every error path clones the current namespace into the error's trace (empty in these harnesses)
+    r"^<smallvec::SmallVec<.*> as std::iter::Extend<.*>>::extend::<.*>$#*": 1,
+    r"^std::ptr::drop_(in_place|glue)::<\[std::boxed::Box<str>\]>$#*": 1,
+    r"hash_map::CaoHashMap::<.*>::(grow|adjust_capacity)$": 0,
+}
+
+
+def _cx(name, tier="quick", bounds="", **kw):
+    lim = dict(_CX_LIM)
+    lim.update(kw.pop("limits", {}))
+    kw.setdefault("stubbing", True)
+    # the compiler keeps its locals in ArrayVec<Local, 255> (6 KB of MaybeUninit each) inside a Vec:
+    # with CBMC's default field-sensitivity limit (64) every access goes through the array theory
+    # and the propositional reduction runs out of memory; with the limit above the array size the
+    # cells are individual SSA symbols and constant addresses fold
+    kw.setdefault("cbmc_args", ["--max-field-sensitivity-array-size", "32768"])
+    kw.setdefault("timeout", 1500)
+    return H("c08", name, tier, bounds=bounds, limits=lim, **kw)
+
+
 # --------------------------------------------------------------------------- C14
 PROPS["C14"] = dict(
     functions=[
@@ -515,6 +538,8 @@ PROPS["C01"] = dict(
     design_ref="DESIGN.md §3 C01, §3.0",
     cap=dict(quick=600, thorough=900),
     harnesses=[
+        _cx("cx_resolve_var_d0", "quick", bounds="compiler: resolve_var in one function with three locals whose names are solver-chosen letters (shadowing occurs) and any queried name: the innermost binding, else a global"),
+        _cx("cx_scope_end_emits", "thorough", bounds="compiler: scope_end releases exactly the locals of the scope (Pop / CloseUpvalue), outer locals survive"),
         H("c01", "c01_value_add_int_int", bounds="Integer + Integer, all i64 pairs without overflow"),
         H("c01", "c01_value_sub_int_int", "thorough", bounds="Integer - Integer"),
         H("c01", "c01_value_mul_int_int", bounds="Integer * Integer"),
@@ -682,29 +707,6 @@ PROPS["C05"] = dict(
     ],
 )
 
-# compiler unit harnesses: Compiler::new() builds a default program (16-slot tables are zero-filled)
-_CX_LIM = {
-    r"SpecFill<cao_lang::prelude::Handle>>::spec_fill$#0": 18,
-    # every error path clones the current namespace into the error's trace (empty in these harnesses)
-    r"^<smallvec::SmallVec<.*> as std::iter::Extend<.*>>::extend::<.*>$#*": 1,
-    r"^std::ptr::drop_(in_place|glue)::<\[std::boxed::Box<str>\]>$#*": 1,
-    r"hash_map::CaoHashMap::<.*>::(grow|adjust_capacity)$": 0,
-}
-
-
-def _cx(name, tier="quick", bounds="", **kw):
-    lim = dict(_CX_LIM)
-    lim.update(kw.pop("limits", {}))
-    kw.setdefault("stubbing", True)
-    # the compiler keeps its locals in ArrayVec<Local, 255> (6 KB of MaybeUninit each) inside a Vec:
-    # with CBMC's default field-sensitivity limit (64) every access goes through the array theory
-    # and the propositional reduction runs out of memory; with the limit above the array size the
-    # cells are individual SSA symbols and constant addresses fold
-    kw.setdefault("cbmc_args", ["--max-field-sensitivity-array-size", "32768"])
-    kw.setdefault("timeout", 1500)
-    return H("c08", name, tier, bounds=bounds, limits=lim, **kw)
-
-
 # --------------------------------------------------------------------------- C10
 PROPS["C10"] = dict(
     functions=[
@@ -725,9 +727,10 @@ PROPS["C10"] = dict(
     level_text="Bounded model checking with Kani/CBMC of the real encode/decode pairs used by compiler and interpreter "
                "(all operand values, small strings, unaligned offsets) and of the opcode span table over all 256 bytes. "
                "Only the value-level half of C10 is decided; the for-all-programs half is outside.",
-    level_note="Trusted: Kani/CBMC. The check does not look at any compiler output.",
+    level_note="Trusted: Kani/CBMC. The check does not look at any compiler output; the thorough tier adds the compiler's "
+               "upvalue-index unit (resolve_var on nested closures) through hooks.",
     design_ref="DESIGN.md §3 C10",
-    cap=dict(quick=300, thorough=1200),
+    cap=dict(quick=900, thorough=2400), mem_gb=20,
     harnesses=[
         H("c10", "c10_roundtrip_ints_k0", bounds="i64,u32,i32,u8 at offset 0; truncated input rejected"),
         H("c10", "c10_roundtrip_ints_k3", "thorough", bounds="same at (unaligned) offset 3"),
@@ -740,42 +743,75 @@ PROPS["C10"] = dict(
         H("c10", "c10_decode_str_total_8", "thorough", bounds="decode_str on any 0..=8 bytes"),
         H("c10", "c10_read_str_total_8", bounds="read_str at any position of any 0..=8 data bytes: total, inside the data"),
         H("c10", "c10_span_table", bounds="span for every byte value"),
-        H("c08", "cx_compile_probe", "x", bounds="probe: compile main=[SetGlobalVar g = ScalarInt x]", stubbing=True, timeout=1500),
-        _cx("cx_resolve_var_d0", "x", bounds="resolve_var, one function level"),
-        _cx("cx_resolve_var_d1", "x", bounds="resolve_var, closure in function"),
-        _cx("cx_resolve_var_d1b", "x", bounds="resolve_var, closure in function"),
-        _cx("cx_resolve_var_d2b", "x", bounds="resolve_var, closure in closure in function"),
-        _cx("cx_resolve_var_d2", "x", bounds="resolve_var, closure in closure in function"),
-        _cx("cx_scope_end_emits", "x", bounds="scope_end"),
+        _cx("cx_resolve_var_d2", "thorough", bounds="compiler: closure in closure in function, 2+1+1 locals with solver-chosen names, 2 earlier resolves per closure level, any queried name: the upvalue index is within the closure's own list and the chain designates the innermost binding"),
+        _cx("cx_resolve_var_d2b", "thorough", bounds="same with 3+2+0 locals, 1 earlier resolve"),
+        _cx("cx_scope_end_emits", "thorough", bounds="compiler: scope_end emits one Pop/CloseUpvalue per local of the scope"),
+        H("c08", "cx_compile_probe", "x", bounds="probe: compile main=[SetGlobalVar g = ScalarInt x] with an empty std module: did not close (25 min, 4.5 GB)", stubbing=True, timeout=1500),
+    ],
+)
+
+# --------------------------------------------------------------------------- C08
+def _rf(ns, imp, tier):
+    nsn = ["the root module", "module a", "module a.b"][ns]
+    impn = ["no import", "import c.f", "import super.f", "import super.super.f", "import super.superf",
+            "import super.c (module)", "import b.c (module)", "import super.super.super.f"][imp]
+    return _cx(f"cx_resolve_fn_ns{ns}_imp{imp}", tier,
+               bounds=f"resolve_function: caller in {nsn}, {impn}; 2^9 jump tables (which of nine candidate functions exist) x 5 called names",
+               limits={r"hash_map::CaoHashMap::<.*>::find_ind::<.*>#0": 17})
+
+
+_RQ = [(0, 2, 0), (2, 5, 2), (2, 4, 1), (1, 1, 0), (2, 3, 0), (1, 6, 2), (1, 2, 0), (0, 1, 0), (2, 2, 0), (1, 4, 1), (2, 1, 0),
+       (0, 7, 0), (1, 5, 2), (2, 6, 2), (2, 7, 0), (1, 3, 0), (0, 0, 0), (2, 0, 0), (1, 0, 3), (2, 0, 3)]
+
+
+def _rq(ns, imp, q, tier):
+    nsn = ["the root module", "module a", "module a.b"][ns]
+    impn = ["no import", "import c.f", "import super.f", "import super.super.f", "import super.superf",
+            "import super.c (module)", "import b.c (module)", "import super.super.super.f"][imp]
+    qn = ["f", "superf", "c.f", "a.f", "zz"][q]
+    return _cx(f"cx_resolve_q_ns{ns}_imp{imp}_q{q}", tier,
+               bounds=f"resolve_function: caller in {nsn}, {impn}, call `{qn}`; which of the (up to four) functions the rules can reach exist is solver-chosen",
+               limits={r"hash_map::CaoHashMap::<.*>::find_ind::<.*>#0": 17})
+
+
+PROPS["C08"] = dict(
+    functions=["Compiler::{resolve_function,add_function,encode_jump (through resolve_function)}, compiler::super_depth, "
+               "FunctionIr::full_name, CaoHashMap<String,FunctionMeta>::{insert,get,contains}"],
+    bounds="resolve_function for a caller in the root module, in `a` and in `a.b` (concrete per harness) under one of eight "
+           "import variants (none, function imports c.f / super.f / super.super.f / super.superf / super.super.super.f, "
+           "module imports super.c / b.c; concrete per harness); one called name of f, superf, c.f, a.f, zz per harness (20 combinations of module x import x name, 6 in the quick tier); "
+           "WHICH of the candidate functions the four rules can reach for that call (out of f, superf, a.f, a.superf, a.b.f, "
+           "a.b.c.f, a.c.f, c.f, a.super.c.c) exist is solver-chosen. The all-names harnesses (2^9 tables x 5 names) did not close "
+           "in 25 min and are tier x. add_function: two registrations, module (root, a, a.b) and name (f, g) solver-chosen.",
+    outside="module-tree flattening (flatten_module, execute_imports, ensure_invariants): `std` clash, ambiguous / malformed "
+            "imports, invalid function and module names, NoMain; longer names and deeper modules; more than one import at a time; "
+            "the run-time half (the callee's frame, argument binding, return value): C01/C06 function-level harnesses; whole "
+            "compile() (did not close even with an empty std module); super_depth on arbitrary strings (did not close)",
+    explanation="The compiler's own resolution routine is executed symbolically through an add-only hook; the expected "
+                "designation is computed in the harness from the property's resolution order (absolute path, own module, function "
+                "import, module-prefix import, `super.` walking up from the caller's module) on string paths, independently of "
+                "the implementation. For every table of existing functions the call must designate the first existing candidate "
+                "in that order with that function's arity, and nothing otherwise (an import above the root is an error, not a "
+                "panic).",
+    assumptions=["std RandomState::new stubbed with fixed keys (imports are iterated, never looked up by hash, in resolve_function)",
+                 "alloc::fmt::format stubbed in the resolve_function harnesses (error message text only; paths are built with "
+                 "collect::<String>()), NOT stubbed in the add_function harness (full_name uses format!)",
+                 "--max-field-sensitivity-array-size 32768"],
+    level_text="Bounded model checking with Kani/CBMC of the compiler's real name-resolution units (resolve_function, add_function) "
+               "driven through hooks: caller module, import and called names concrete per harness from small catalogues, the set "
+               "of existing functions (2^9) solver-chosen; the call must designate exactly the function the resolution order of "
+               "the property selects, or be an error. Module flattening, import validation and the run-time half are outside.",
+    level_note="Trusted: Kani/CBMC; the reference resolution written in harness/src/c08.rs from the property text; the catalogues "
+               "of module paths, imports and names (everything outside them is not covered).",
+    design_ref="DESIGN.md §3 C08",
+    cap=dict(quick=900, thorough=3600), mem_gb=20, jobs=4,
+    harnesses=[_rq(ns, imp, q, "x") for i, (ns, imp, q) in enumerate(_RQ)] + [
+        _rf(ns, imp, "x") for ns in (0, 1, 2) for imp in range(8)] + [
         _cx("cx_add_function_duplicates", "x", bounds="add_function twice: modules root/a/a.b and names f/g solver-chosen (36 combinations), real format! for the full name",
-            limits={r"hash_map::CaoHashMap::<.*>::find_ind::<.*>#0": 17}, timeout=2400),
-        _cx("cx_super_depth_7", "x", bounds="super_depth, 7 bytes"),
+            limits={r"hash_map::CaoHashMap::<.*>::find_ind::<.*>#0": 17}, timeout=2400, stubbing=True),
+        _cx("cx_super_depth_7", "x", bounds="super_depth, all 7-byte strings over {s,u,p,e,r,.,x}: did not close (315 s)"),
         _cx("cx_super_depth_9", "x", bounds="super_depth, 9 bytes"),
         _cx("cx_super_depth_13", "x", bounds="super_depth, 13 bytes"),
-        _cx("cx_resolve_fn_ns0_imp0", "x", bounds="resolve_function: caller module #0, import variant 0, 2^9 function tables x 5 names", limits={r"hash_map::CaoHashMap::<.*>::find_ind::<.*>#0": 17}),
-        _cx("cx_resolve_fn_ns0_imp1", "x", bounds="resolve_function: caller module #0, import variant 1, 2^9 function tables x 5 names", limits={r"hash_map::CaoHashMap::<.*>::find_ind::<.*>#0": 17}),
-        _cx("cx_resolve_fn_ns0_imp2", "x", bounds="resolve_function: caller module #0, import variant 2, 2^9 function tables x 5 names", limits={r"hash_map::CaoHashMap::<.*>::find_ind::<.*>#0": 17}),
-        _cx("cx_resolve_fn_ns0_imp3", "x", bounds="resolve_function: caller module #0, import variant 3, 2^9 function tables x 5 names", limits={r"hash_map::CaoHashMap::<.*>::find_ind::<.*>#0": 17}),
-        _cx("cx_resolve_fn_ns0_imp4", "x", bounds="resolve_function: caller module #0, import variant 4, 2^9 function tables x 5 names", limits={r"hash_map::CaoHashMap::<.*>::find_ind::<.*>#0": 17}),
-        _cx("cx_resolve_fn_ns0_imp5", "x", bounds="resolve_function: caller module #0, import variant 5, 2^9 function tables x 5 names", limits={r"hash_map::CaoHashMap::<.*>::find_ind::<.*>#0": 17}),
-        _cx("cx_resolve_fn_ns0_imp6", "x", bounds="resolve_function: caller module #0, import variant 6, 2^9 function tables x 5 names", limits={r"hash_map::CaoHashMap::<.*>::find_ind::<.*>#0": 17}),
-        _cx("cx_resolve_fn_ns0_imp7", "x", bounds="resolve_function: caller module #0, import variant 7, 2^9 function tables x 5 names", limits={r"hash_map::CaoHashMap::<.*>::find_ind::<.*>#0": 17}),
-        _cx("cx_resolve_fn_ns1_imp0", "x", bounds="resolve_function: caller module #1, import variant 0, 2^9 function tables x 5 names", limits={r"hash_map::CaoHashMap::<.*>::find_ind::<.*>#0": 17}),
-        _cx("cx_resolve_fn_ns1_imp1", "x", bounds="resolve_function: caller module #1, import variant 1, 2^9 function tables x 5 names", limits={r"hash_map::CaoHashMap::<.*>::find_ind::<.*>#0": 17}),
-        _cx("cx_resolve_fn_ns1_imp2", "x", bounds="resolve_function: caller module #1, import variant 2, 2^9 function tables x 5 names", limits={r"hash_map::CaoHashMap::<.*>::find_ind::<.*>#0": 17}),
-        _cx("cx_resolve_fn_ns1_imp3", "x", bounds="resolve_function: caller module #1, import variant 3, 2^9 function tables x 5 names", limits={r"hash_map::CaoHashMap::<.*>::find_ind::<.*>#0": 17}),
-        _cx("cx_resolve_fn_ns1_imp4", "x", bounds="resolve_function: caller module #1, import variant 4, 2^9 function tables x 5 names", limits={r"hash_map::CaoHashMap::<.*>::find_ind::<.*>#0": 17}),
-        _cx("cx_resolve_fn_ns1_imp5", "x", bounds="resolve_function: caller module #1, import variant 5, 2^9 function tables x 5 names", limits={r"hash_map::CaoHashMap::<.*>::find_ind::<.*>#0": 17}),
-        _cx("cx_resolve_fn_ns1_imp6", "x", bounds="resolve_function: caller module #1, import variant 6, 2^9 function tables x 5 names", limits={r"hash_map::CaoHashMap::<.*>::find_ind::<.*>#0": 17}),
-        _cx("cx_resolve_fn_ns1_imp7", "x", bounds="resolve_function: caller module #1, import variant 7, 2^9 function tables x 5 names", limits={r"hash_map::CaoHashMap::<.*>::find_ind::<.*>#0": 17}),
-        _cx("cx_resolve_fn_ns2_imp0", "x", bounds="resolve_function: caller module #2, import variant 0, 2^9 function tables x 5 names", limits={r"hash_map::CaoHashMap::<.*>::find_ind::<.*>#0": 17}),
-        _cx("cx_resolve_fn_ns2_imp1", "x", bounds="resolve_function: caller module #2, import variant 1, 2^9 function tables x 5 names", limits={r"hash_map::CaoHashMap::<.*>::find_ind::<.*>#0": 17}),
-        _cx("cx_resolve_fn_ns2_imp2", "x", bounds="resolve_function: caller module #2, import variant 2, 2^9 function tables x 5 names", limits={r"hash_map::CaoHashMap::<.*>::find_ind::<.*>#0": 17}),
-        _cx("cx_resolve_fn_ns2_imp3", "x", bounds="resolve_function: caller module #2, import variant 3, 2^9 function tables x 5 names", limits={r"hash_map::CaoHashMap::<.*>::find_ind::<.*>#0": 17}),
-        _cx("cx_resolve_fn_ns2_imp4", "x", bounds="resolve_function: caller module #2, import variant 4, 2^9 function tables x 5 names", limits={r"hash_map::CaoHashMap::<.*>::find_ind::<.*>#0": 17}),
-        _cx("cx_resolve_fn_ns2_imp5", "x", bounds="resolve_function: caller module #2, import variant 5, 2^9 function tables x 5 names", limits={r"hash_map::CaoHashMap::<.*>::find_ind::<.*>#0": 17}),
-        _cx("cx_resolve_fn_ns2_imp6", "x", bounds="resolve_function: caller module #2, import variant 6, 2^9 function tables x 5 names", limits={r"hash_map::CaoHashMap::<.*>::find_ind::<.*>#0": 17}),
-        _cx("cx_resolve_fn_ns2_imp7", "x", bounds="resolve_function: caller module #2, import variant 7, 2^9 function tables x 5 names", limits={r"hash_map::CaoHashMap::<.*>::find_ind::<.*>#0": 17}),
     ],
 )
 
@@ -975,6 +1011,10 @@ PROPS["C06"] = dict(
     design_ref="DESIGN.md §3 C06",
     cap=dict(quick=600, thorough=900), mem_gb=18, jobs=3,
     harnesses=[
+        _cx("cx_resolve_var_d1", "quick", bounds="compiler: a closure in a function with 3+1 locals (solver-chosen names, shadowing occurs), one earlier resolve, any queried name: the upvalue designates the innermost binding in the enclosing function and marks it captured"),
+        _cx("cx_resolve_var_d1b", "thorough", bounds="same with 2+2 locals and two earlier resolves"),
+        _cx("cx_resolve_var_d2", "thorough", bounds="closure in closure in function, 2+1+1 locals, two earlier resolves per level: non-local upvalue chains"),
+        _cx("cx_resolve_var_d2b", "thorough", bounds="closure in closure, 3+2+0 locals"),
         _vm("c06", "c06_capture_off0_idx0", "x", dispatches=3, bounds="capture local 0 at frame offset 0", objects=True),
         _vm("c06", "c06_capture_off0_idx1", "x", dispatches=3, bounds="capture local 1 at frame offset 0", objects=True),
         _vm("c06", "c06_capture_off2_idx0", "x", dispatches=3, bounds="capture local 0 at frame offset 2", objects=True),
